@@ -40,6 +40,7 @@ def grid(params: Dict) -> nx.MultiDiGraph:
     p_oneway = float(params.get("oneway", 0.15))
     p_delete = float(params.get("delete", 0.08))
     stretch = float(params.get("stretch", 1.3))
+    p_missing = float(params.get("missing_speed", 0.0))
     g = nx.MultiDiGraph()
     for i in range(n):
         for j in range(n):
@@ -53,7 +54,10 @@ def grid(params: Dict) -> nx.MultiDiGraph:
         a = (g.nodes[u]["y"], g.nodes[u]["x"])
         b = (g.nodes[v]["y"], g.nodes[v]["x"])
         d = _gc_m(a, b)
-        g.add_edge(u, v, length=d * rnd.uniform(1.0, stretch) + 1.0, speed_kmph=rnd.choice(speeds))
+        attrs = {"length": d * rnd.uniform(1.0, stretch) + 1.0, "speed_kmph": rnd.choice(speeds)}
+        if rnd.random() < p_missing:
+            del attrs["speed_kmph"]  # the loader fills in network.default_speed_kmph
+        g.add_edge(u, v, **attrs)
 
     pairs = []
     for i in range(n):
